@@ -70,6 +70,11 @@ def run(ctx):
     ctx.add_tlc("MC_IntConv(CastRefines, CastPtrRoundTrip; LL=5)", r)
     r = core.tlc("MC_BV", workers=8)
     ctx.add_tlc("MC_BV(Scale = truncation toward zero, Twos, FromSigned)", r)
+    ok, out, wall = core.apalache("APA_IntConv", "Laws")
+    if not ok:
+        raise core.MachineryError("Apalache refutes the cast law at true widths:\n" + out[-2000:])
+    ctx.cov["apalache"] = [{"module": "APA_IntConv", "inv": "Laws (CastImpl = IdealCast)", "outcome": "NoError",
+                            "wall_s": round(wall, 1), "scope": "w in {8,16,32,64}, v in Int (unbounded)"}]
     facts = gcc_type_facts(ctx.tmp)
     facts.update(char_facts(ctx.tmp))
     ffi = cffi.FFI()
